@@ -19,7 +19,7 @@ REPOINC  := \
 REPODEFS := -DGIT_TAG=verif -DGIT_HASH=verif -DNDEBUG
 RCFLAGS  := $(COMMON) -std=gnu11 $(REPOINC) $(REPODEFS)
 RCXXFLAGS:= $(COMMON) -std=gnu++20 $(REPOINC) $(REPODEFS)
-VCXXFLAGS:= -O1 -g -fno-omit-frame-pointer $(SAN) -std=gnu++20 -Wall -Wno-unused-function -Wno-missing-field-initializers $(REPOINC)
+VCXXFLAGS:= -O1 -g -fno-omit-frame-pointer $(SAN) -std=gnu++20 -Wall -Wno-unused-function -Wno-missing-field-initializers -Wno-unknown-pragmas $(REPOINC)
 
 # repo sources (object name = path with / replaced by __)
 REPO_C := \
